@@ -235,6 +235,35 @@ def ev_savepoint(case):
                 if po[name] == "ok" and pr[name] != "ok":
                     add_fail(f"plots/{label}/{name}-fails-on-reloaded-sampler", f"saved at step {k}: {pr[name]}", k=k)
             tags.add(f"{label}:plots:{sorted(po.items())}")
+        # ---- (1b) the ORIGINAL saved a second time after its last point was replaced (the public hook parallel tempering
+        # uses): the second file must describe the chain as it is now, not as it was at the first save
+        if kind != "EnsembleSampler" and k >= 1:
+            try:
+                with lib("replace-and-resave"):
+                    O3 = build(kind, cfg, seed)
+                    for _ in range(k):
+                        step(O3, kind)
+                    if "estmass" in cfg and k >= 4:
+                        O3.estimate_mass(burn=0, diagonal=("diag" in cfg))
+                    O3.save(os.path.join(tmp, "r1.npz"))
+                    newpt = np.array(O3.get_last(), dtype=float) * 0.5 + 0.05
+                    O3.replace_last(newpt.copy())
+                    O3.probs[-1] = post(newpt) * O3.inv_temp
+                    O3.save(os.path.join(tmp, "r2.npz"))
+                    R3 = load(O3, kind, os.path.join(tmp, "r2.npz"), cfg)
+                    a3, b3 = readout(O3, kind), readout(R3, kind)
+                for key in a3:
+                    if a3[key] != b3.get(key):
+                        add_fail(f"readout/{label}/{key}-differs-after-replace_last-and-second-save", f"saved at step {k}", k=k)
+                n += 1
+            except HarnessError:
+                raise
+            except Exception as e:
+                from mc.core import LibFailure
+
+                if isinstance(e, LibFailure):
+                    raise
+                add_fail(f"readout/{label}/second-save-after-replace_last-fails", f"{type(e).__name__}: {e}"[:300], k=k)
         # ---- (2) continuation, by take_step and by advance
         m = L - k
         # the take_step continuation starts from the file of the FIRST round trip, the advance continuation from the second
